@@ -40,7 +40,7 @@ import (
 )
 
 const (
-	nWorkers = 12
+	nWorkers = 16
 
 	// cpuLimitTicks is the processor time (USER_HZ ticks: 30 s) one evaluation
 	// may use before the parent ends the worker; hangLimit bounds the
@@ -124,6 +124,34 @@ func tail(path string, n int) string {
 	}
 
 	return string(b)
+}
+
+// lastCrash cuts the diagnostics of a dead worker down to its final crash
+// report.
+func lastCrash(s string) string {
+	i := strings.LastIndex(s, "\nfatal error: ")
+	if j := strings.LastIndex(s, "\npanic: "); j > i {
+		i = j
+	}
+
+	if i < 0 {
+		if len(s) > 4000 {
+			s = s[len(s)-4000:]
+		}
+
+		return s
+	}
+
+	if j := strings.LastIndex(s[:i+1], "runtime: goroutine stack exceeds"); j >= 0 && i-j < 400 {
+		i = j - 1
+	}
+
+	s = s[i+1:]
+	if len(s) > 64000 {
+		s = s[:64000]
+	}
+
+	return s
 }
 
 // runWorker drives shard k to completion, replacing the worker whenever it
@@ -284,11 +312,14 @@ func runWorker(k int, tier string) workerResult {
 
 		case st.get(stInflight) == 1:
 			cur.Kind = "death"
-			cur.Stderr = tail(errFile, 16000)
+			cur.Stderr = lastCrash(tail(errFile, 1<<20))
 			res.cands = append(res.cands, cur)
 		}
 
-		fmt.Fprintf(os.Stderr, "C07-INFO worker %d replaced at phase %d text %d (%s) after %.0fs\n", k, cur.Phase, cur.Idx, cur.Kind, time.Since(tStart).Seconds())
+		if os.Getenv("C07_VERBOSE") != "" {
+			_, desc, _ := phases(tier == "thorough")[cur.Phase].text(cur.Idx)
+			fmt.Fprintf(os.Stderr, "C07-INFO worker %d replaced at phase %d text %d (%s) after %.0fs: %s\n", k, cur.Phase, cur.Idx, cur.Kind, time.Since(tStart).Seconds(), desc)
+		}
 
 		setupFailures = 0
 		res.restarts++
@@ -879,7 +910,7 @@ func main() {
 				tc := time.Now()
 				cf := confirm(d, text, at.opts...)
 
-				fmt.Fprintf(os.Stderr, "C07-INFO confirmation of %q via %s %v took %.0fs: worker %s, ego %s\n", key, driverNames[d], at.opts, time.Since(tc).Seconds(), cf.Single, cf.Real)
+				fmt.Fprintf(os.Stderr, "C07-INFO check of %q via %s %v took %.0fs: worker %s, ego %s\n", key, driverNames[d], at.opts, time.Since(tc).Seconds(), cf.Single, cf.Real)
 
 				w := witness{Driver: driverNames[d], DriverN: d, Options: at.opts, Phase: ph[c.Phase].name, Index: c.Idx, Input: desc, Source: text, Seen: driverNames[driver] + ": " + seen, Confirm: cf}
 
